@@ -516,6 +516,15 @@ def run_history(ctx, seed, nops, nprobes, witness=None):
             for pat in ("%", "*", "b", "%/%"):
                 d.list_probe(plain_query(False, ref, pat))
                 meta["probes"] += 1
+        # the LIST-EXTENDED forms on the final tree
+        for pat in ("%", "*", "a%", "%/%", "a/%", "INBOX"):
+            for opts in ({"ssub": True}, {"ssub": True, "srec": True}, {"rsub": True}, {"rstat": True},
+                         {"sspec": True}, {"ssub": True, "srec": True, "rsub": True, "rstat": True},
+                         {"multi": True, "pats": [pat, "b*"]}):
+                qy = plain_query(False, "", pat)
+                qy.update(opts)
+                d.list_probe(qy)
+                meta["probes"] += 1
     except Refused as e:
         res["violation"] = ("a refused command changed the mailbox tree",
                             {"command": e.text, "result": e.res, "dirs_files_table_before": e.before,
@@ -551,6 +560,12 @@ WITNESSES = [
     # RENAME of INBOX moves the messages
     [("append", "inbox"), ("append", "INBOX"), ("create", "inbox/a"), ("rename", "INBOX", "b/c"), ("append", "inbox"),
      ("rename", "inbox", "inbox/a/b")],
+    # subscribed parent and child under RECURSIVEMATCH; SUBSCRIBED with a placeholder (\NonExistent)
+    [("create", "a/b/c"), ("create", "b/a"), ("subscribe", "a"), ("subscribe", "a/b"), ("subscribe", "a/b/c"),
+     ("subscribe", "b/a"), ("append", "a/b"), ("delete", "a/b")],
+    # names MH can not hold
+    [("create", "a"), ("create", " "), ("create", " /b"), ("rename", "a", " /c"), ("create", "123"),
+     ("rename", "a", "123"), ("rename", "a", " "), ("subscribe", " "), ("delete", "123")],
     # RFC 6154 mailboxes
     [("delete", "Junk"), ("rename", "Drafts", "a/b"), ("restart",), ("subscribe", "Sent Messages")],
 ]
@@ -558,7 +573,7 @@ WITNESSES = [
 
 def coq_compare(ctx, name, hs):
     texts = []
-    per = 12
+    per = 3
     for i in range(0, len(hs), per):
         t = HEADER
         for j, h in enumerate(hs[i:i + per]):
@@ -591,7 +606,7 @@ def model_at(ctx, h, k):
 
 
 def history_level(ctx):
-    n = 300 if ctx.thorough else 16
+    n = 300 if ctx.thorough else 14
     nops = 40 if ctx.thorough else 30
     nprobes = 30 if ctx.thorough else 12
     hs = []
@@ -627,7 +642,6 @@ def history_level(ctx):
             rep["seed"] = h["seed"]
             rep["commands_and_replies"] = h["log"][-25:]
             ctx.violation(what, rep)
-    ctx.coq.build(["Model/NamespaceCmp.vo"])
     bad = coq_compare(ctx, "c17h", hs)
     for (i, idx) in bad[:3]:
         h = hs[i]
@@ -676,8 +690,9 @@ def gen_glob_case(rng):
 
 
 def glob_level(ctx):
-    from asimap.mbox import Mailbox
+    from asimap.mbox import InvalidMailbox, Mailbox
 
+    refused = 0
     src = inspect.getsource(Mailbox._mbox_pattern_to_re)
     pin = 'mbox_match.replace(r"\\*", r".*").replace(r"%", r"[^\\/]*")'
     if pin not in src or 're.escape(mbox_match)' not in src:
@@ -691,7 +706,11 @@ def glob_level(ctx):
         if not canonical_pattern(pat):
             skipped += 1
             continue
-        rx = Mailbox._mbox_pattern_to_re(ref, pat)
+        try:
+            rx = Mailbox._mbox_pattern_to_re(ref, pat)
+        except InvalidMailbox:
+            refused += 1    # a reference/pattern that names something outside the mail directory (C09)
+            continue
         try:
             obs = re.search(rx, name) is not None
             obs_inbox = re.search("(?i)" + rx, "inbox") is not None
@@ -726,7 +745,8 @@ def glob_level(ctx):
                        "implementation_matches_name": o, "implementation_matches_INBOX": oi})
     ctx.extra["glob_level"] = {"cases": len(cases), "matching": sum(1 for c in cases if c[3]),
                                "matching_inbox": sum(1 for c in cases if c[4]),
-                               "skipped_non_canonical_patterns": skipped}
+                               "skipped_non_canonical_patterns": skipped,
+                               "refused_as_outside_the_mail_directory": refused}
 
 
 def source_pins(ctx):
@@ -738,22 +758,59 @@ def source_pins(ctx):
                                          "the model assumes (SELECT ... WHERE name=? OR substr(name,1,?)=?)"})
 
 
+def known_findings(ctx):
+    """replay the witness of every listed finding of this property; report it when it still fails"""
+    for f in ctx.findings():
+        fid = f.get("id", "")
+        d = Driver(1)
+        try:
+            if fid == "C17-digit-level":
+                d.send("A", 'CREATE "a"')
+                body = "Subject: cid-1\r\n\r\nmessage 1\r\n"
+                d.send("A", f'APPEND "a" () {{{len(body)}}}\r\n{body}')
+                d.send("A", 'CREATE "a/12"')
+                d.w.restart()
+                d.w.run(d.w.server.find_all_folders())
+                d.w.session("B")
+                out = d.send("B", 'EXAMINE "a"')
+                if out is None or tagged_of(out) != "OK":
+                    ctx.known_finding(fid, f["what"])
+            elif fid == "C17-inbox-spelling-level":
+                d.send("A", 'CREATE "INBOX/z"')
+                rows = [r[0] for r in d.table()]
+                if "INBOX" in d.dirs() and "INBOX" not in rows and "INBOX/z" in rows:
+                    ctx.known_finding(fid, f["what"])
+        except Exception:  # noqa: BLE001
+            ctx.known_finding(fid, f["what"])
+        finally:
+            d.close()
+
+
 def run(ctx):
     ctx.coverage["rule"] = (
         "glob level: reference/pattern/name triples over the characters ab/.*%[]()|+?^$ {}-~#&AIx\\ (30% from the "
         "pattern grammar, names derived from the pattern in 35% of the cases) through Mailbox._mbox_pattern_to_re + re; "
-        "history level: 7 witness histories plus random histories of 30 (quick) / 40 (thorough) commands CREATE 27% "
-        "DELETE 20% RENAME 16% SUBSCRIBE 11% UNSUBSCRIBE 5% APPEND 11% EXAMINE 5% restart 5% over names of depth <= 3 "
-        "built from the levels a, b, 'a b', a.b, a[b, A, a_b, c, inbox, Junk, 'Sent Messages' and INBOX in three "
-        "spellings (65% re-use of an earlier name, its parent or a child), after every command the mailboxes table and "
-        "the directory tree, after every RENAME and at the end the messages of every mailbox, LIST/LSUB probes "
-        "(55 patterns x LIST/LSUB, 13 references x 4 patterns, random LIST-EXTENDED selection/return options and "
-        "multi-pattern forms); distinct by command list; non-trivial = the history had a placeholder, a renamed "
-        "subtree or a refused command")
-    ok = ctx.prove("Properties/C17.v")
+        "history level: 9 witness histories plus 14 (quick) / 300 (thorough) random histories of 30 / 40 commands "
+        "CREATE 27% DELETE 20% RENAME 16% SUBSCRIBE 11% UNSUBSCRIBE 5% APPEND 11% EXAMINE 5% restart 5% over names of "
+        "depth <= 3 built from the levels a, b, 'a b', a.b, a[b, A, a_b, c, inbox, Junk, 'Sent Messages', INBOX in "
+        "three spellings and the odd names 123, ' ' (70% re-use of a name in the table or seen earlier, its parent or "
+        "a child); after every command the mailboxes table and the directory tree, after every RENAME and at the end "
+        "the messages of every mailbox; LIST/LSUB probes: 25% of the commands are followed by a random one, at the end "
+        f"{len(PATTERNS)} patterns x LIST/LSUB, {len(set(REFS)) - 1} references x 4 patterns, 6 patterns x 7 "
+        "LIST-EXTENDED option sets and random selection/return options and multi-pattern forms; distinct by command "
+        "list; non-trivial = the history had a placeholder, a renamed subtree or a refused command")
+    import time
+
+    t0 = time.time()
+    ctx.prove("Properties/C17.v", extra_targets=["Model/NamespaceCmp.vo"])
+    t1 = time.time()
     source_pins(ctx)
     glob_level(ctx)
+    t2 = time.time()
     history_level(ctx)
+    known_findings(ctx)
+    ctx.extra["phase_seconds"] = {"proof": round(t1 - t0, 1), "glob_level": round(t2 - t1, 1),
+                                  "history_level": round(time.time() - t2, 1)}
     ctx.assume += [
         "commands are atomic with respect to one another (interleavings are C10's)",
         "mailbox names reach the namespace code as the parser delivers them: the check sends quoted names without "
